@@ -67,9 +67,11 @@ def h2(cx):
     ups = [c for c in own_nodes(f) if isinstance(c, ast.Call) and call_name(c) == "update" and norm(c.func.value).endswith(".__dict__")]
     cx.need(len(ups) == 1, "_FieldOfDressed.__set__: `<new>.__dict__.update(value.__dict__)` not found")
     x = norm(ups[0].func.value)[: -len(".__dict__")]
-    restores = [s for s in own_nodes(f) if isinstance(s, ast.Assign) and norm(s.targets[0]) == f"{x}._xobject" and norm(s.value) == "getattr(container._xobject, self.name)"]
+    own_view = "getattr(container._xobject, self.name)"
+    restores = [s for s in own_nodes(f) if isinstance(s, ast.Assign) and norm(s.targets[0]) == f"{x}._xobject" and norm(s.value) == own_view]
+    restores += [fl.stmt(c) for c in own_nodes(f) if isinstance(c, ast.Call) and norm(c.func) == f"{x}._reinit_from_xobject" and (get_arg(c, 0, "_xobject") is not None and norm(get_arg(c, 0, "_xobject")) == own_view)]
     ok = any(fl.ordered_before(ups[0], s) for s in restores)
-    cx.check(ok, ups[0], construct=f"{short(ups[0])} ; {x}._xobject = getattr(container._xobject, self.name)", detail="the python-side copy clobbers _xobject, which is then pointed back at the container's field",
+    cx.check(ok, ups[0], construct=f"{short(ups[0])} ; {x}._xobject := getattr(container._xobject, self.name)", detail="the python-side copy clobbers _xobject, which is then pointed back at the container's field (directly or through _reinit_from_xobject)",
              bad_detail="after copying the python attributes the child's _xobject is not restored to the container's field: the child keeps viewing the source object's storage", sub="restore")
     ctor = [s for s in own_nodes(f) if isinstance(s, ast.Assign) and norm(s.targets[0]) == x]
     ok = len(ctor) == 1 and norm(ctor[0].value) == "value.__class__(_xobject=getattr(container._xobject, self.name))"
@@ -92,6 +94,97 @@ def h2(cx):
     src = norm(r)
     ok = "ff.ftype._DressingClass(_xobject=getattr(_xobject, ff.name))" in src and "for ff in self._XoStruct._fields" in src
     cx.check(ok, r, construct="_reinit_from_xobject: child = DressingClass(_xobject=getattr(_xobject, ff.name)) for every nested hybrid field", detail="nested dressed parts view the (possibly relocated) struct", bad_detail="nested dressed parts are not rebuilt from the new xobject", sub="reinit")
+
+
+BOUND = ("_xobject", "_dressed_*")
+
+
+@rule("H6", ["C18"], "bulk copies of python attributes between hybrid handles never leave storage-bound attributes (_xobject, _dressed_<field>) of the source in the destination")
+def h6(cx):
+    """`_xobject` and every `_dressed_<field>` of a hybrid handle VIEW storage.  Two sites copy a whole `__dict__`
+    from one handle to another (to keep pure-python attributes): the copy arm of `_FieldOfDressed.__set__` and
+    `_reinit_from_xobject`.  Whatever storage-bound attribute such a copy may overwrite in the destination must be
+    derived again from the destination's own storage afterwards, otherwise a nested part keeps viewing the source:
+    reads/writes through `outer.mid.leaf` then go to another object's memory (PF22, seeded C18-a)."""
+    m = cx.m
+    sites = 0
+    for fn in m.all_functions("hybrid_class"):
+        fl = None
+        for node in own_nodes(fn):
+            dst = src = None
+            over = None  # set of bound key classes the copy may overwrite
+            site = None
+            if isinstance(node, ast.Call) and call_name(node) == "update" and isinstance(node.func, ast.Attribute) and norm(node.func.value).endswith(".__dict__") and node.args and norm(node.args[0]).endswith(".__dict__"):
+                dst, src = norm(node.func.value)[:-9], norm(node.args[0])[:-9]
+                over = set(BOUND)
+                site = node
+            elif isinstance(node, ast.For) and ".__dict__" in norm(node.iter):
+                it = norm(node.iter)
+                src = it.split(".__dict__")[0]
+                kname = norm(node.target.elts[0]) if isinstance(node.target, ast.Tuple) else norm(node.target)
+                stores = [x for x in ast.walk(node) if isinstance(x, ast.Assign) and isinstance(x.targets[0], ast.Subscript) and norm(x.targets[0].value).endswith(".__dict__") and norm(x.targets[0].slice) == kname]
+                stores += [fl_ for fl_ in ast.walk(node) if isinstance(fl_, ast.Call) and call_name(fl_) == "setattr" and len(fl_.args) == 3 and norm(fl_.args[1]) == kname]
+                if not stores:
+                    continue
+                st0 = stores[0]
+                dst = norm(st0.targets[0].value)[:-9] if isinstance(st0, ast.Assign) else norm(st0.args[0])
+                over = set(BOUND)
+                fl = fl or Flow(fn)
+                for c in fl.conds_at(st0 if isinstance(st0, ast.Assign) else fl.stmt(st0)):
+                    if c.kind != "if":
+                        continue
+                    t, pol = c.test, c.pol
+                    if isinstance(t, ast.UnaryOp) and isinstance(t.op, ast.Not):
+                        t, pol = t.operand, not pol
+                    txt = norm(t)
+                    if isinstance(t, ast.Compare) and len(t.ops) == 1 and norm(t.left) == kname:
+                        rhs = norm(t.comparators[0])
+                        absent = (isinstance(t.ops[0], ast.NotIn) and pol) or (isinstance(t.ops[0], ast.In) and not pol)
+                        if absent and rhs in (f"{dst}.__dict__", f"{dst}.__dict__.keys()"):
+                            # only keys the destination does not have yet: a freshly constructed handle has every bound key
+                            over = set()
+                        elif ((isinstance(t.ops[0], ast.NotEq) and pol) or (isinstance(t.ops[0], ast.Eq) and not pol)) and rhs == "'_xobject'":
+                            over.discard("_xobject")
+                        elif absent and isinstance(t.comparators[0], (ast.Tuple, ast.List, ast.Set)):
+                            for e in t.comparators[0].elts:
+                                if isinstance(e, ast.Constant) and e.value == "_xobject":
+                                    over.discard("_xobject")
+                        else:
+                            raise AnalysisError(f"[H6] guard `{txt}` on an attribute copy loop not understood")
+                    elif isinstance(t, ast.Call) and norm(t.func) == f"{kname}.startswith" and t.args and isinstance(t.args[0], ast.Constant):
+                        if t.args[0].value == "_dressed_" and not pol:
+                            over.discard("_dressed_*")
+                        elif t.args[0].value == "_" and not pol:
+                            over = set()
+                        else:
+                            raise AnalysisError(f"[H6] guard `{txt}` on an attribute copy loop not understood")
+                    elif kname in txt:
+                        raise AnalysisError(f"[H6] guard `{txt}` on an attribute copy loop not understood")
+                site = node
+            if site is None:
+                continue
+            sites += 1
+            fl = fl or Flow(fn)
+            st = fl.stmt(site) if not isinstance(site, ast.stmt) else site
+            if over == set() and isinstance(site, ast.For):
+                # relies on the destination being freshly constructed (constructor dresses every nested field)
+                ctor = [a for a in own_nodes(fn) if isinstance(a, ast.Assign) and norm(a.targets[0]) == dst and isinstance(a.value, ast.Call) and any(k.arg == "_xobject" for k in a.value.keywords) and fl.ordered_before(a, st)]
+                cx.check(len(ctor) >= 1, site, construct=f"{fn.name}: copy loop {src}.__dict__ -> {dst}.__dict__, only keys absent from `{dst}`", detail=f"`{dst}` was just built from its own _xobject, so _xobject and every _dressed_<field> are present and kept",
+                         bad_detail=f"`{dst}` is not freshly built from its own _xobject before the copy: absent storage-bound attributes are taken from `{src}`")
+                continue
+            # re-derivations after the copy, on the same paths
+            base = {id(c.test) for c in fl.conds_at(st)}
+            redo = set()
+            for a in own_nodes(fn):
+                if isinstance(a, ast.Assign) and norm(a.targets[0]) == f"{dst}._xobject" and fl.ordered_before(st, a) and {id(c.test) for c in fl.conds_at(a)} <= base:
+                    redo.add("_xobject")
+                if isinstance(a, ast.Call) and norm(a.func) == f"{dst}._reinit_from_xobject" and fl.ordered_before(st, fl.stmt(a)) and {id(c.test) for c in fl.conds_at(fl.stmt(a))} <= base:
+                    redo |= set(BOUND)
+            left = sorted(over - redo)
+            cx.check(not left, site, construct=f"{fn.name}: {src}.__dict__ -> {dst}.__dict__ may overwrite {sorted(over)}; re-derived afterwards: {sorted(redo)}",
+                     detail="every storage-bound attribute the copy can overwrite is rebuilt from the destination's own storage",
+                     bad_detail=f"{left} of `{dst}` may be taken over from `{src}` and are not rebuilt from `{dst}`'s own storage: the nested part keeps viewing `{src}`'s memory (reads/writes through it miss the container)")
+    cx.need(sites >= 2, f"only {sites} bulk attribute copies between hybrid handles found (expected __set__ and _reinit_from_xobject)")
 
 
 def _ns(e, env):
@@ -224,38 +317,91 @@ def j1(cx):
     m = cx.m
     f = m.func(f"{HC}.to_dict")
     fl = Flow(f)
-    stores = [s for s in own_nodes(f) if isinstance(s, ast.Assign) and isinstance(s.targets[0], ast.Subscript) and norm(s.targets[0].value) == "out"]
-    plain = [s for s in stores if not isinstance(s.value, ast.Call)]
-    cx.need(len(plain) == 1, "to_dict: the plain-value store `out[ff] = vv` not found")
-    s = plain[0]
-    vv = norm(s.value)
-    ok = False
-    why = "the plain-value store is not guarded by an inequality between the declared default and the value"
-    for c in fl.conds_at(s):
-        t, pol = c.test, c.pol
-        # np.any(D != v) [True]  |  np.all(D == v) [False]  |  D != v [True] | D == v [False]
-        inner, need = t, pol
-        if isinstance(t, ast.Call) and norm(t.func) in ("np.any", "any") and len(t.args) == 1:
-            inner = t.args[0]
-        elif isinstance(t, ast.Call) and norm(t.func) in ("np.all", "all") and len(t.args) == 1:
-            inner = t.args[0]
-            need = not pol  # not all(D == v)
-            if isinstance(inner, ast.Compare) and isinstance(inner.ops[0], ast.Eq) and need:
-                inner = ast.Compare(left=inner.left, ops=[ast.NotEq()], comparators=inner.comparators)
-                need = True
-        if isinstance(inner, ast.Compare) and len(inner.ops) == 1:
-            sides = [norm(inner.left), norm(inner.comparators[0])]
-            if vv in sides and any(x.startswith("defaults.get(") or x.startswith("defaults[") for x in sides):
-                if isinstance(inner.ops[0], ast.NotEq) and need:
-                    ok = True
-                elif isinstance(inner.ops[0], ast.Eq) and not need:
-                    ok = True
+    # ---- elision rule, phrased on PATHS (independent of how the dispatch is written):
+    # the loop over the fields is found; every path through its body that stores nothing under the field's key
+    # must carry the fact "value equals the declared default" (np.any(D != v) false, np.all(D == v) true, D == v, ...).
+    loops = [l for l in own_nodes(f) if isinstance(l, ast.For) and any(isinstance(x, ast.Assign) and isinstance(x.targets[0], ast.Subscript) and norm(x.targets[0].value) == "out" for x in ast.walk(l))]
+    cx.need(len(loops) == 1, "to_dict: the loop storing the fields into `out` not found")
+    lp = loops[0]
+    key = norm(lp.target)
+    # the value variable: assigned from getattr(obj, key)
+    vdefs = [x for x in lp.body if isinstance(x, ast.Assign) and isinstance(x.value, ast.Call) and norm(x.value.func) == "getattr" and len(x.value.args) >= 2 and norm(x.value.args[1]) == key]
+    cx.need(len(vdefs) == 1 and isinstance(vdefs[0].targets[0], ast.Name), "to_dict: `vv = getattr(obj, ff)` not found")
+    vv = vdefs[0].targets[0].id
+
+    def is_store(st):
+        return isinstance(st, ast.Assign) and isinstance(st.targets[0], ast.Subscript) and norm(st.targets[0].value) == "out" and norm(st.targets[0].slice) == key
+
+    def paths(stmts, conds, stored):
+        """-> list of (conds, stored, terminated)"""
+        cur = [(list(conds), stored, False)]
+        for st in stmts:
+            nxt = []
+            for cds, sd, term in cur:
+                if term:
+                    nxt.append((cds, sd, term))
+                    continue
+                if is_store(st):
+                    nxt.append((cds, True, False))
+                elif isinstance(st, ast.If):
+                    for arm, pol in ((st.body, True), (st.orelse, False)):
+                        for r in paths(arm, cds + [(st.test, pol)], sd):
+                            nxt.append(r)
+                elif isinstance(st, (ast.Continue, ast.Break, ast.Return)):
+                    nxt.append((cds, sd, True))
+                elif isinstance(st, (ast.For, ast.While, ast.Try, ast.With)):
+                    raise AnalysisError(f"[J1] to_dict: unsupported `{type(st).__name__}` inside the field loop")
                 else:
-                    why = "polarity inverted: values EQUAL to the default are stored and all others dropped"
-    cx.check(ok, s, construct=f"{short(s)} under {[c.text() for c in fl.conds_at(s) if c.kind == 'if'][-1:]}", detail="a plain value is stored iff it differs from the declared default", bad_detail=why)
-    # nested / array forms are always stored
-    nested = [s for s in stores if isinstance(s.value, ast.Call)]
-    cx.check(len(nested) == 2 and {norm(x.value) for x in nested} == {f"{vv}.to_dict()", f"{vv}._to_dict()"}, nested[0] if nested else f, construct="nested hybrid -> to_dict(), nested struct -> _to_dict()", detail="compound values are always included, recursively", bad_detail="nested values are not serialised recursively", sub="nested")
+                    nxt.append((cds, sd, False))
+            cur = nxt
+        return cur
+
+    def default_equality(t, pol):
+        """does (t, pol) assert  declared default == value ?"""
+        if isinstance(t, ast.UnaryOp) and isinstance(t.op, ast.Not):
+            return default_equality(t.operand, not pol)
+        quant = None
+        inner = t
+        if isinstance(t, ast.Call) and norm(t.func) in ("np.any", "any", "np.all", "all") and len(t.args) == 1:
+            quant = "any" if norm(t.func).endswith("any") else "all"
+            inner = t.args[0]
+        if not (isinstance(inner, ast.Compare) and len(inner.ops) == 1):
+            return None
+        sides = [norm(inner.left), norm(inner.comparators[0])]
+        if not (vv in sides and any(x.startswith("defaults.get(") or x.startswith("defaults[") for x in sides)):
+            return None
+        eq = isinstance(inner.ops[0], ast.Eq)
+        ne = isinstance(inner.ops[0], ast.NotEq)
+        if not (eq or ne):
+            return None
+        # truth table: which (quantifier, operator, polarity) mean "all components equal"
+        if quant in (None, "all") and eq and pol:
+            return True  # D == v / all(D == v) holds
+        if quant in (None, "any") and ne and not pol:
+            return True  # not any(D != v)
+        return False  # a default-related test, but not the equality fact (e.g. any(D == v) false = all differ)
+
+    allp = paths(lp.body, [], False)
+    cx.need(len(allp) >= 3, "to_dict: fewer than three paths through the field loop")
+    n_el = 0
+    for cds, sd, _ in allp:
+        if sd:
+            continue
+        n_el += 1
+        facts = [default_equality(t, pol) for t, pol in cds]
+        desc = " and ".join((("" if pol else "not ") + short(t, 60)) for t, pol in cds) or "unconditionally"
+        anchor_node = cds[-1][0] if cds else lp
+        if any(x is True for x in facts):
+            cx.ok(anchor_node, construct=f"to_dict: field left out when {desc}", detail="elided only when the value equals the declared default, which the constructor fills in for an absent key")
+        elif any(x is False for x in facts):
+            cx.bad(anchor_node, construct=f"to_dict: field left out when {desc}", detail="polarity inverted: the field is dropped although it DIFFERS from the declared default (values equal to the default are the ones stored): from_dict rebuilds the default instead of the value")
+        else:
+            cx.bad(anchor_node, construct=f"to_dict: field left out when {desc}", detail="a field is left out of the dictionary on a path that does not establish `value == declared default`: from_dict fills the outer default in and the rebuilt object differs")
+    cx.need(n_el >= 1, "to_dict: no eliding path found (the default elision the property describes is gone)")
+    stores = [s_ for s_ in ast.walk(lp) if is_store(s_)]
+    vals = {norm(x.value) for x in stores}
+    cx.check(any(v.endswith(".to_dict()") for v in vals | {norm(d.value) for d in ast.walk(lp) if isinstance(d, ast.Assign)}) and any(v.endswith("._to_dict()") for v in vals | {norm(d.value) for d in ast.walk(lp) if isinstance(d, ast.Assign)}), lp,
+             construct="nested hybrid -> to_dict(), nested struct -> _to_dict()", detail="compound values are serialised recursively", bad_detail="nested values are not serialised recursively", sub="nested")
     # J2 single source of defaults
     dl = [s for s in own_nodes(f) if isinstance(s, ast.Assign) and isinstance(s.targets[0], ast.Subscript) and norm(s.targets[0].value) == "defaults"]
     cx.check(len(dl) == 1 and norm(dl[0].value) == "field.get_default()", dl[0] if dl else f, construct="defaults[...] = field.get_default()", detail="elision compares against Field.get_default()", bad_detail="elision default is not Field.get_default()", sub="J2")
